@@ -416,7 +416,7 @@ def _update(ck: Checker) -> None:
     # _diff_meta: without cmp_key compares the Meta objects by equality
     dm = prog.func("index.diff", "_diff_meta")
     gdm = ck.cfg(dm)
-    full = [t for t in gdm.nodes.values() if t.kind == "test" and isinstance(t.ast, ast.Compare) and norm(t.ast) in ("old != new", "new != old", "old == new", "new == old")]
+    full = [t for t in walk_own(dm.node) if isinstance(t, ast.Compare) and norm(t) in ("old != new", "new != old", "old == new", "new == old")]
     ck.require(bool(full), "C13.update", dm, dm.node, "_diff_meta compares whole Meta objects when no key is given", "_diff_meta no longer compares the full Meta objects", construct="old != new")
     meta = prog.cls("hashfile.meta", "Meta")
     need = {"size", "mtime", "inode", "isdir", "isexec", "version_id", "etag", "checksum", "md5"}
